@@ -2104,8 +2104,110 @@ def _sc_thread_local(rec, m):
         rec.violation('proxy_result_differs_from_local', dict(attrs, op='after_reconnect'))
 
 
+def _ret(v):
+    return ('ret',) + norm(v)
+
+
+def _sc_two_managers(rec, m):
+    """proxies of one manager stored in an object of another manager: the
+    second server must keep them as proxies of the first (object ids are heap
+    addresses and repeat across servers forked from one parent), operations
+    through the stored proxy reach the first manager's object, and that object
+    lives as long as the stored proxy does"""
+    attrs = {'mode': 'directed', 'scenario': 'proxy_of_one_manager_stored_in_another'}
+    rec.case()
+    m2 = new_manager('fork')
+    try:
+        n = 60
+        b_objs = [m2.list([('B', i)]) for i in range(n)]
+        a_objs = [m.list([('A', i)]) for i in range(n)]
+        b_ids = {p._token.id for p in b_objs}
+        coll = [p for p in a_objs if p._token.id in b_ids]
+        rec.count('two_managers:id_collisions', len(coll))
+        rec.sig(['directed', 'two_managers', bucket(len(coll))])
+        holder = m2.dict()
+        for i, p in enumerate(a_objs):
+            holder[i] = p
+        for i, p in enumerate(a_objs):
+            got = holder[i]
+            first = attempt(lambda: got[0])
+            if first != _ret(('A', i)):
+                rec.violation('proxy_result_differs_from_local',
+                              dict(attrs, op='read_back', id_collision=p in coll),
+                              local=repr(('A', i)), proxy=repr(first))
+                break
+            got.append(('via-B', i))
+            if attempt(lambda: p[-1]) != _ret(('via-B', i)):
+                rec.violation('proxy_result_differs_from_local',
+                              dict(attrs, op='write_through', id_collision=p in coll),
+                              local=repr(('via-B', i)), proxy=repr(attempt(lambda: p[-1])))
+                break
+            del got
+        # lifetime: the only remaining proxies are the ones held inside m2's dict
+        del a_objs, coll, p
+        gc.collect()
+        time.sleep(0.3)
+        left = m._number_of_objects()
+        if left != n:
+            rec.violation('object_gone_while_proxy_exists', attrs, objects=left, expected=n)
+        else:
+            v = attempt(lambda: holder[n - 1][0])
+            if v != _ret(('A', n - 1)):
+                rec.violation('object_gone_while_proxy_exists', dict(attrs, op='use_after_drop'),
+                              got=repr(v))
+        holder.clear()
+        t_end = time.monotonic() + 10
+        while m._number_of_objects() and time.monotonic() < t_end:
+            time.sleep(0.1)
+        left = m._number_of_objects()
+        if left:
+            rec.violation('object_alive_after_last_release', attrs, objects_left=left)
+        del b_objs, holder
+    finally:
+        stop_manager(m2)
+
+
+def _sc_unsendable_reply(rec, m):
+    """a method whose return value (or exception) cannot be sent back: whatever
+    the caller is told about that call, everything done afterwards through this
+    and other proxies, from the same thread, still behaves like the local object"""
+    attrs = {'mode': 'directed', 'scenario': 'unsendable_reply'}
+    rec.case()
+    odd = m.Odd()
+    lst, dct, val = m.list(), m.dict(), m.Value('i', 0)
+    l_lst, l_dct = [], {}
+    kinds = ['lock', 'gen', 'local', 'lambda', 'raise_unpicklable']
+    seen = []
+    for k, what in enumerate(kinds):
+        r = attempt(lambda: odd.ret(what))
+        seen.append((what, r[0] if r[0] == 'ret' else r[1]))
+        rec.count('unsendable_replies')
+        if r[0] == 'ret':
+            rec.violation('proxy_returned_for_unsendable_reply', dict(attrs, what=what),
+                          got=repr(r)[:200])
+        # the thread's connection to the manager must still serve everybody
+        lst.append(k)
+        l_lst.append(k)
+        dct[what] = k
+        l_dct[what] = k
+        val.value = k
+        checks = [('list', attempt(lambda: lst[:]), _ret(list(l_lst))),
+                  ('dict', attempt(lambda: dict(dct.items())), _ret(dict(l_dct))),
+                  ('value', attempt(lambda: val.value), _ret(k)),
+                  ('same_proxy', attempt(lambda: odd.ret('plain')), _ret(('plain', 2 * k + 2)))]
+        for name, got, want in checks:
+            if got != want:
+                rec.violation('proxy_result_differs_from_local',
+                              dict(attrs, op='after_' + what, through=name),
+                              local=repr(want), proxy=repr(got)[:300])
+                return
+    rec.sig(['directed', 'unsendable', seen])
+
+
 def run_directed(spec, rec):
-    scenarios = [lambda m: _sc_alias_drop(rec, m, 'RLock'),
+    scenarios = [lambda m: _sc_two_managers(rec, m),
+                 lambda m: _sc_unsendable_reply(rec, m),
+                 lambda m: _sc_alias_drop(rec, m, 'RLock'),
                  lambda m: _sc_alias_drop(rec, m, 'Lock'),
                  lambda m: _sc_alias_drop(rec, m, 'Condition'),
                  lambda m: _sc_unrelated_drop(rec, m, 'RLock'),
